@@ -39,10 +39,13 @@ KrylovMat(A, v, j) ==
 KSubseqs(n, k) == {SetToSeq(S): S \in {T \in SUBSET (1..n): Cardinality(T) = k}}
 HasMinor(M, k) ==
     \/ k = 0
-    \/ \E S \in KSubseqs(M.r, k): \E T \in KSubseqs(M.c, k): DetN(MGather(M, S, T)) # CZ
-Rank(M) ==
-    LET ks == {k \in 0..KMin2(M.r, M.c): HasMinor(M, k)}
-    IN CHOOSE k \in ks: \A q \in ks: q <= k
+    \/ LET Ts == KSubseqs(M.c, k)
+       IN \E S \in KSubseqs(M.r, k): \E T \in Ts: DetN(MGather(M, S, T)) # CZ
+\* a non-vanishing (k+1)-minor implies a non-vanishing k-minor (Laplace expansion), so the rank is found by
+\* counting upwards until the first k without one
+RECURSIVE RankFrom(_, _)
+RankFrom(M, k) == IF k < KMin2(M.r, M.c) /\ HasMinor(M, k + 1) THEN RankFrom(M, k + 1) ELSE k
+Rank(M) == RankFrom(M, 0)
 
 KRank(A, v, j) == Rank(KrylovMat(A, v, j))
 \* eventual rank: K_j has at most n independent columns, and the rank is stationary once it stalls
@@ -103,7 +106,7 @@ FullSpec(lam) ==
 (* arithmetic; classical = modified).  The process ends at the first step  *)
 (* whose residual is identically zero; that step must be KDim (rank based).*)
 (* FPExact states that every q_j and every h_ij is a dyadic rational with  *)
-(* small numerator / denominator whose real or imaginary part vanishes:    *)
+(* small numerator / denominator (q_j: real or purely imaginary entries):  *)
 (* all products and sums of the floating-point run (binary32 included) are *)
 (* then exact whatever their order, the norms are square roots of perfect  *)
 (* squares, and the residual at breakdown is the floating-point number 0.0.*)
@@ -149,10 +152,11 @@ ExactArnoldi(A, v) ==
 DyadicC(x, d, b) ==
     /\ IsPow2(d) /\ d <= b
     /\ x[1] <= b /\ x[1] >= -b /\ x[2] <= b /\ x[2] >= -b
-    /\ (x[1] = 0 \/ x[2] = 0)
+\* entries of the basis vectors are real or purely imaginary (their moduli, hence the norms, are computed exactly)
 FPExact(xa, b) ==
     /\ xa.rational
-    /\ \A j \in 1..Len(xa.q): \A i \in 1..xa.q[j].r: DyadicC(xa.q[j].e[i][1], xa.q[j].d, b)
+    /\ \A j \in 1..Len(xa.q): \A i \in 1..xa.q[j].r:
+          LET x == xa.q[j].e[i][1] IN DyadicC(x, xa.q[j].d, b) /\ (x[1] = 0 \/ x[2] = 0)
     /\ \A j \in 1..Len(xa.h): \A i \in 1..Len(xa.h[j]): DyadicC(xa.h[j][i].n, xa.h[j][i].d, b)
 RECURSIVE LinComb(_, _, _)
 LinComb(hs, qs, i) ==
